@@ -59,8 +59,9 @@
 //! /verif/regressions/C18/c18/nlj-fallback-right-unmatched-lost.json: `t LEFT JOIN u`, 128 KiB pool, expected
 //! 2681 rows, got 1317; correct with batch_size ≥ 1024; same defect and root-cause fix as
 //! /verif/fixes/C05-nlj-spill-fallback-right-emission.diff of the vf-join crate). Until the fixes are committed every
-//! nested-loop-join case is excluded through `known_signature` (signatures `nlj-oom-fallback:left-emission-multi-partition`
-//! for cases with more than one partition, `nlj-oom-fallback:right-emission-skipped` otherwise).
+//! nested-loop-join case was excluded. Final tree: (A) and (C) are fixed in /repo (their cases run as plain regressions);
+//! only (B) is open and only nested-loop cases with more than one partition are excluded, under
+//! `nlj-oom-fallback:left-emission-multi-partition` (`known_signature` maps OPEN findings only).
 //!
 //! Oracle correction (seed 21): an un-ordered LIMIT answer that is not within the un-LIMITed result is re-tried
 //! without a memory limit; when the unbounded run misbehaves the same way the case is `inconclusive` — the
@@ -298,8 +299,9 @@ impl Property for C18 {
     fn known_signature(&self, case: &Case) -> Option<String> {
         let nlj = case.query.shape.join_algo() == Some(JoinAlgo::NestedLoop);
         if nlj {
+            // only the still-open defect is mapped (the right-emission and left-child defects are fixed in /repo)
             let multi = case.cfg.target_partitions >= 2 || case.cfg.mem_partitions >= 2;
-            return Some(if multi { crate::c20::SIG_LEFT_EMISSION } else { crate::c20::SIG_RIGHT_EMISSION }.to_string());
+            return if multi { Some(crate::c20::SIG_LEFT_EMISSION.to_string()) } else { None };
         }
         None
     }
